@@ -24,6 +24,7 @@ import MW.Lemmas.PendHistNotifyEx
 import MW.Lemmas.PendHistComposeEx
 import MW.Lemmas.PendHistNotifySpecEx
 import MW.Lemmas.PendHistSeenEx
+import MW.Lemmas.PendHistNotifyDomEx
 import MW.Lemmas.TxmgrCodecRec
 namespace MW.Props.C09
 open MW MW.Model.Ledger MW.Lemmas.LedgerPending
@@ -778,6 +779,74 @@ open MW.Lemmas.PendHist MW.Lemmas.PendHist.Notify MW.Lemmas.PendHist.NotifySpec 
 example : (Spec.Pending.onChainMoved exE.env ([exG, exB1] ++ [exB2]) ([exG, exB1] ++ [exB2x]) exV.sp.pend).map (·.id) = ["T2", "T1"] ∧
     exS7.pending.map (·.1) = ["T1", "T2"] ∧
     (processBlock (exE.ctx exV.node) exV.s exV.v exB2x).1.pending.map (·.1) = ["T1", "T2"] := exRefines_obs
+
+-- ------------------------------------------------------------------ Round 7: `NotifyDom` derived from `HOK` + `HInv`
+section NotifyDomDerived
+open MW.Lemmas.PendHist MW.Lemmas.PendHist.Cred MW.Lemmas.PendHist.Notify MW.Lemmas.PendHist.Compose
+  MW.Lemmas.PendHist.NotifySpec MW.Lemmas.PendHist.NotifyDomD MW.Lemmas.Ledger
+
+/-- the `DiscDom`s of the disconnect steps of a notification's run (inside `HOK`) describe the whole disconnected branch:
+    every block of `old` satisfies the chain-level clauses w.r.t. the chain below it -/
+theorem notify_old_branch_of_hok (rank : TxId → Nat) (E : HEnv) (w : HW) (H : HInv rank E w) (sm : Store) (n : Nat)
+    (hbest : w.v.best.height + 1 = w.sp.chain.length)
+    (hd : DReachFrom (E.ctx w.node) w.v.best.height w.s sm n)
+    (hD : ∀ x ∈ worldsH E w (List.replicate n .disconnect), HOK rank E x.1 x.2)
+    (c0 old : List Block) (hch : w.sp.chain = c0 ++ old) (hlen : old.length = n) : BranchOK E c0 old :=
+  branch_of_run hd w rfl rfl H hbest hD c0 old hch hlen
+
+/-- `NotifyDom.disc` (`DiscAll`: distinct ids, consistency, the three per-block clauses) IS A THEOREM of `HInv` and that -/
+theorem notify_disc_derived (rank : TxId → Nat) (E : HEnv) (w : HW) (H : HInv rank E w) (c0 old : List Block)
+    (hch : w.sp.chain = c0 ++ old) (B : BranchOK E c0 old) : DiscAll E.env c0 old w.sp.pend :=
+  discAll_of_branch H c0 old hch B
+
+/-- `NotifyDom` from `HInv`, the per-step domains of the run (`BranchOK` of the old, `NewOK` of the new branch) and the
+    RESIDUE `NotifyRes`: `fork` (no block of the old branch on the new BRANCH), `cbfork` (no coinbase of the old branch on
+    the new branch), `nodbl` (no cross-block double spend of a confirmed candidate inside the new branch) -/
+theorem notify_dom_derived (rank : TxId → Nat) (E : HEnv) (w : HW) (H : HInv rank E w) (c0 old new : List Block)
+    (hch : w.sp.chain = c0 ++ old) (B : BranchOK E c0 old) (N : NewOK E c0 new)
+    (R : NotifyRes old new (w.sp.pend ++ backOf E.env old)) : NotifyDom E.env c0 old new w.sp.pend :=
+  notifyDom_of H c0 old new hch B N R
+
+/-- **NOTIFY REFINES ONE `onChainMoved`, `NotifyDom` DERIVED.**  `notify_refines` with the three-clause residue `NotifyRes`
+    in place of `NotifyDom`: everything else of `NotifyDom` follows from `HInvC` and `HOK` along the run of the
+    notification (and is returned as the first conjunct) -/
+theorem notify_refines_derived (rank : TxId → Nat) (E : HEnv) (w : HW) (H : HInvC rank E w)
+    (hbest : w.v.best.height + 1 = w.sp.chain.length) (b : Block) (s' : Store) (v' : Vol)
+    (h : processBlock (E.ctx w.node) w.s w.v b = (s', v', true)) :
+    ∃ n bs, ∀ c0 old, w.sp.chain = c0 ++ old → old.length = n →
+      (∀ x ∈ worldsH E w (notifyEvs n bs), HOK rank E x.1 x.2) →
+      NotifyRes old bs (w.sp.pend ++ backOf E.env old) →
+      NotifyDom E.env c0 old bs w.sp.pend ∧
+      Inv (E.ctx w.node) s' (c0 ++ bs) ∧
+      PendRel rank s' (Spec.Pending.onChainMoved E.env (c0 ++ old) (c0 ++ bs) w.sp.pend) ∧
+      CredRel E.env s' (Spec.Pending.onChainMoved E.env (c0 ++ old) (c0 ++ bs) w.sp.pend) :=
+  notify_refines_res w H hbest b s' v' h
+
+/-- non-vacuity: the G-B1-B2 → G-B1-B2x notification meets `NotifyRes`; `NotifyDom` and the conclusion are derived -/
+example : NotifyRes [exB2] [exB2x] (exV.sp.pend ++ backOf exE.env [exB2]) := exNotifyResV
+example : NotifyDom exE.env [exG, exB1] [exB2] [exB2x] exV.sp.pend := exRefinesRes.1
+
+/-- NECESSITY of `cbfork`: the same-coinbase move (replayed on the code, Round 6c) meets `fork` and `nodbl`, violates
+    `cbfork`, and one move ≠ the composition there -/
+theorem notify_res_cbfork_necessary :
+    ((Spec.Pending.onChainMoved scE ([scG] ++ scOld) ([scG] ++ scNew) [scP, scT]).map (·.id) = ["T"] ∧
+     (connFold scE [scG] scNew (discFold scE [scG] scOld ([scG] ++ scOld, [scP, scT]))).2.map (·.id) = []) ∧
+    ((∀ x ∈ scOld, ∀ y ∈ scNew, y.id ≠ x.id) ∧
+     (∀ k, k ≤ scNew.length → ∀ p ∈ [scP, scT] ++ backOf scE scOld, Spec.Pending.onChain (scNew.take k) p.id = true →
+       Spec.Pending.conflictedBy (scNew.take k) p = false) ∧
+     ¬ (∀ x ∈ scOld, ∀ u ∈ x.txs, u.cb = true → Spec.Pending.onChain scNew u.id = false)) :=
+  ⟨sc_same_coinbase, sc_res_only_cbfork⟩
+
+/-- NECESSITY of `nodbl`: a new branch B1x(U spends X:0)-B2x(P spends X:0) on G, P and its child T pending, meets `fork`
+    and `cbfork`, violates `nodbl`; one move keeps T, the composition drops it; the move is outside `NotifyDom` -/
+theorem notify_res_nodbl_necessary :
+    ((Spec.Pending.onChainMoved dbE ([scG] ++ []) ([scG] ++ dbNew) [dbP, dbT]).map (·.id) = ["T"] ∧
+     (connFold dbE [scG] dbNew (discFold dbE [scG] [] ([scG] ++ [], [dbP, dbT]))).2.map (·.id) = []) ∧
+    ¬ (∀ k, k ≤ dbNew.length → ∀ p ∈ [dbP, dbT] ++ backOf dbE [], Spec.Pending.onChain (dbNew.take k) p.id = true →
+      Spec.Pending.conflictedBy (dbNew.take k) p = false) ∧
+    ¬ NotifyDom dbE [scG] [] dbNew [dbP, dbT] :=
+  ⟨dbl_new_branch, dbl_res_only_nodbl.2.2, dbl_not_notifyDom⟩
+end NotifyDomDerived
 
 /-- FORMERLY OPEN (2), PROVED in Round 6: the credit relation along ALL histories of `pending_refines`, i.e.
     `credit_refines_partial` without the hypothesis at the disconnect steps.  Receive, connect and the purge of disconnect
